@@ -388,10 +388,10 @@ class Walk:
             if not self.step():
                 break
 
-    def crash_one(self) -> None:
+    def crash_one(self, avoid: set[int] | None = None) -> None:
         rng = self.rng
         s = self.real.sched
-        live = [n._verif_id for n in s.nodes]
+        live = [n._verif_id for n in s.nodes if not avoid or n._verif_id not in avoid]
         if not live:
             return
         n = rng.choice(live)
@@ -423,6 +423,10 @@ class Walk:
             return True
         if r < self.malformed + self.crash:
             self.crash_one()
+            return True
+        if self.steal_out and self.crash > 0 and rng.random() < 0.06:
+            # a worker other than the one that owes a steal answer dies while the request is outstanding
+            self.crash_one(avoid=set(self.steal_out))
             return True
         if self.tocollect and rng.random() < 0.4:
             n = self.tocollect.pop(0)
@@ -495,6 +499,7 @@ class Monitor:
         self.had_requeue = False
         self.fired: set[str] = set()
         self.illegal_seen = False
+        self.steal_open: int | None = None      # node that owes an answer to a steal request
 
     def fire(self, props: list[str], sig: str, what: str, ops: list[str], detail: dict) -> None:
         if sig in self.fired:
@@ -514,6 +519,8 @@ class Monitor:
         op = line.split()
         col = after["col"]
         lb = mode != "each"
+        if op[0] in ("unsched", "rm") and self.steal_open == int(op[1]):
+            self.steal_open = None          # the answer arrived / the victim is gone: the request is settled
         # ---- wire (C16)
         for o in outs:
             f = o.split(":")
@@ -530,6 +537,10 @@ class Monitor:
                     if len(set(idx)) != len(idx):
                         self.fire(["C16", "C01"], "run-index-twice-in-command", f"{o} repeats an index", ops, {})
                 if f[0] == "steal":
+                    if self.steal_open is not None:
+                        self.fire(["C07"], "second-steal-while-outstanding",
+                                  f"{o} sent while gw{self.steal_open} still owes the answer to an earlier request", ops, {"out": out})
+                    self.steal_open = n
                     idx = [int(x) for x in f[2].split(",")] if f[2] != "-" else []
                     book = after["books"].get(n, [])
                     if any(i not in book for i in idx):
